@@ -214,20 +214,32 @@ func check(r rec) (vs []engine.Violation, nComplaints int, addsDefaults bool) {
 		}
 	}
 	// ---- defaults
-	var wantTree, gotTree, gotTwice, orig []string
+	var wantTree, gotTree, gotTwice, orig, rawBefore, rawAfter []string
+	errsAfter := len(errs)
 	dec := decorate(kids, r.Data)
 	canon(dec, "", &wantTree)
 	canon(r.Data.Kids, "", &orig)
 	addsDefaults = len(wantTree) != len(orig)
 	func() {
 		defer func() { p = recover() }()
-		d1 := schema.AddDefaults(ms, r.Data.node())
+		raw := r.Data.node()
+		walkData(raw, "", &rawBefore, 0)
+		d1 := schema.AddDefaults(ms, raw)
 		walkData(d1, "", &gotTree, 0)
 		walkData(schema.AddDefaults(ms, d1), "", &gotTwice, 0)
+		// the history raw -> decorated view read (twice) -> raw again: the explicit data the view was
+		// made from is what it was, and validates as it did
+		walkData(raw, "", &rawAfter, 0)
+		_, e2, _ := schema.ValidateSchema(ms, raw, false)
+		errsAfter = len(e2)
 	}()
 	switch {
 	case p != nil:
 		mk("panic-in-adddefaults:"+r.label(), fmt.Sprint(p))
+	case strings.Join(rawBefore, "\n") != strings.Join(rawAfter, "\n"):
+		mk("decoration-alters-the-explicit-data:"+r.label()+shapeKey(r), fmt.Sprintf("the tree handed to AddDefaults was %v and is %v after its decorated view was read", rawBefore, rawAfter))
+	case errsAfter != len(errs):
+		mk("decoration-alters-the-explicit-data:validation:"+r.label()+shapeKey(r), fmt.Sprintf("%d complaints before, %d for the same tree after its decorated view was read", len(errs), errsAfter))
 	case strings.Join(wantTree, "\n") != strings.Join(gotTree, "\n"):
 		mk("wrong-decoration:"+r.label()+shapeKey(r), fmt.Sprintf("expected %v got %v", wantTree, gotTree))
 	case strings.Join(gotTree, "\n") != strings.Join(gotTwice, "\n"):
